@@ -140,6 +140,10 @@ def body_deletions(text, rules):
     for mt in re.finditer(r'\bvec!\s*\[\s*\]', m):
         dels.append((mt.start(), mt.end(), 'Vec::new()'))
         rules.append(('D6', 'vec![] -> Vec::new()', ''))
+    # D4: `::indexmap::` names an extern crate; in the one-file unit the stub module is `indexmap::` (in scope via the prelude)
+    for mt in re.finditer(r'(?<![\w:])::indexmap::', m):
+        dels.append((mt.start(), mt.end(), 'indexmap::'))
+        rules.append(('D4', '::indexmap:: -> indexmap::', ''))
     dels.sort(key=lambda d: (d[0], d[1]))
     return dels
 
